@@ -26,6 +26,10 @@ C07 — line-protocol driver of the models (core only).  One op per line, one an
                                    z1/z2 = observed zstd|snappy / gorilla lengths, `x` = gorilla refuses)
   colsegdec <ty> <segment> <orc> → col <len> <nil> <rows> | err (decodeColumnData / appendTimeColumnData and
                                    the rows a reader of the ColVal sees; orc = decompressed payload or `-`)
+  scaled <v,…> / scaleddec <n> <hex>        (codec.EncodeInt64sWithScale / DecodeInt64sWithScale)
+  cmeta <p|s> <preAgg> <k> <cm>×k / cmetadec <p|s> <names> <hex>   (chunk meta, plain / self-compressing)
+  mindex <d> <fields> / mindexdec <d> <hex>  (MetaIndex)       trailer <fields> / trailerdec <hex>  (Trailer)
+  metaconsts                                 (length constants of the readers)
 
 `zlen` is the observed length of the zstd (snappy, …) payload for the block's raw bytes: the
 library output is opaque to the model, only its length takes part in the mode decision.  In a
@@ -38,6 +42,7 @@ import OG.C07.FloatFrame
 import OG.C07.Wal
 import OG.C07.StringFrame
 import OG.C07.ColSeg
+import OG.C07.MetaCodec
 
 namespace OG.C07
 
@@ -298,6 +303,184 @@ def stepColSegDec (toks : List String) : String :=
     | _, _ => "bad-op"
   | _ => "bad-op"
 
+/-! ### metadata codecs -/
+
+abbrev TP := StateT (List String) Option
+
+def tok : TP String := fun s => match s with | [] => none | t :: r => some (t, r)
+def tNat : TP Nat := do let t ← tok; match t.toNat? with | some n => pure n | none => failure
+def tInt64 : TP W := do
+  let t ← tok
+  match t.toInt? with
+  | some i => if -(2 ^ 63 : Int) ≤ i ∧ i < 2 ^ 63 then pure (BitVec.ofInt 64 i) else failure
+  | none => failure
+def tHex : TP Bytes := do let t ← tok; match hexBytes? t with | some b => pure b | none => failure
+def tRep {α : Type} (p : TP α) : Nat → TP (List α)
+  | 0 => pure []
+  | n + 1 => do let a ← p; let as ← tRep p n; pure (a :: as)
+
+def tCM : TP ChunkMetaM := do
+  let sid ← tNat; let off ← tInt64; let size ← tNat; let cc ← tNat; let sc ← tNat
+  let ntr ← tNat
+  let trs ← tRep (do let a ← tInt64; let b ← tInt64; pure (a, b)) ntr
+  let ncols ← tNat
+  let cols ← tRep (do
+    let name ← tHex; let ty ← tNat; let pa ← tHex; let ne ← tNat
+    let es ← tRep (do let o ← tInt64; let sz ← tNat; pure (⟨o, sz⟩ : SegM)) ne
+    pure (⟨name, UInt8.ofNat ty, pa, es⟩ : ColMetaM)) ncols
+  pure ⟨sid, off, size, cc, sc, trs, cols⟩
+
+def showCM (m : ChunkMetaM) : String :=
+  let trs := m.timeRange.foldl (fun s t => s ++ " " ++ toString t.1.toInt ++ " " ++ toString t.2.toInt) ""
+  let cols := m.cols.foldl (fun s c =>
+    s ++ " " ++ hexOrDash c.name ++ " " ++ toString c.ty.toNat ++ " " ++ hexOrDash c.preAgg ++ " "
+      ++ toString c.entries.length
+      ++ c.entries.foldl (fun s e => s ++ " " ++ toString e.offset.toInt ++ " " ++ toString e.size) "") ""
+  toString m.sid ++ " " ++ toString m.offset.toInt ++ " " ++ toString m.size ++ " " ++ toString m.columnCount
+    ++ " " ++ toString m.segCount ++ " " ++ toString m.timeRange.length ++ trs ++ " " ++ toString m.cols.length ++ cols
+
+def showNames (hdr : List Bytes) : String :=
+  if hdr.isEmpty then "-" else ",".intercalate (hdr.map hexOrDash)
+
+def parseNames (s : String) : Option (List Bytes) :=
+  if s == "-" then some [] else (s.splitOn ",").mapM hexBytes?
+
+def parseInts (s : String) : Option (List Int) :=
+  if s == "-" then some []
+  else (s.splitOn ",").mapM fun t =>
+    match t.toInt? with
+    | some i => if -(2 ^ 63 : Int) ≤ i ∧ i < 2 ^ 63 then some i else none
+    | none => none
+
+def showInts (vs : List Int) : String :=
+  if vs.isEmpty then "-" else ",".intercalate (vs.map toString)
+
+def stepCMeta (toks : List String) : String :=
+  match toks with
+  | mode :: pa :: k :: rest =>
+    match pa.toNat?, k.toNat? with
+    | some pa, some k =>
+      if (mode ≠ "p" ∧ mode ≠ "s") ∨ pa > 1 then "bad-op"
+      else
+        match (tRep tCM k).run rest with
+        | some (ms, []) =>
+          let preAggOn := pa = 1
+          if mode == "p" then
+            ms.foldl (fun s m => s ++ " " ++ hexOrDash (marshalCMPlain preAggOn m)) "ok" ++ " hdr=-"
+          else
+            let res := ms.foldl (fun (acc : Option (String × List Bytes)) m =>
+              match acc with
+              | none => none
+              | some (s, hdr) =>
+                match marshalCMSelf preAggOn hdr m with
+                | none => none
+                | some (b, hdr') => some (s ++ " " ++ hexOrDash b, hdr')) (some ("ok", []))
+            match res with
+            | none => "err panic"
+            | some (s, hdr) => s ++ " hdr=" ++ showNames hdr
+        | _ => "bad-op"
+    | _, _ => "bad-op"
+  | _ => "bad-op"
+
+def stepCMetaDec (toks : List String) : String :=
+  match toks with
+  | [mode, names, hex] =>
+    match parseNames names, hexBytes? hex with
+    | some hdr, some bs =>
+      let r := if mode == "p" then unmarshalCMPlain bs else if mode == "s" then unmarshalCMSelf hdr bs else none
+      if mode ≠ "p" ∧ mode ≠ "s" then "bad-op"
+      else match r with
+        | none => "err"
+        | some (m, rest) => "cm " ++ showCM m ++ " " ++ toString rest.length
+    | _, _ => "bad-op"
+  | _ => "bad-op"
+
+def tTrailer : TP TrailerM := do
+  let a ← tInt64; let b ← tInt64; let c ← tInt64; let d ← tInt64; let e ← tInt64; let f ← tInt64
+  let g ← tInt64; let minId ← tNat; let maxId ← tNat; let mn ← tInt64; let mx ← tInt64; let items ← tInt64
+  let bm ← tNat; let bk ← tNat; let name ← tHex; let ts ← tNat; let cc ← tNat
+  let h ← tok
+  let hdr : Option (Option (List Bytes)) :=
+    if h == "-" then some none
+    else match h.splitOn ":" with
+      | [n, vs] =>
+        match n.toNat? with
+        | some 0 => if vs == "" then some (some []) else none
+        | some _ => (parseNames vs).map some
+        | none => none
+      | _ => none
+  match hdr with
+  | none => failure
+  | some hdr => pure ⟨a, b, c, d, e, f, g, minId, maxId, mn, mx, items, bm, bk, name, ts, cc, hdr⟩
+
+def showTrailer (t : TrailerM) : String :=
+  let i (w : W) := toString w.toInt
+  let h := match t.header with
+    | none => "-"
+    | some vs => toString vs.length ++ ":" ++ ",".intercalate (vs.map hexOrDash)
+  " ".intercalate [i t.dataOffset, i t.dataSize, i t.indexSize, i t.metaIndexSize, i t.bloomSize, i t.idTimeSize,
+    i t.idCount, toString t.minId, toString t.maxId, i t.minTime, i t.maxTime, i t.metaIndexItemNum,
+    toString t.bloomM, toString t.bloomK, hexOrDash t.name, toString t.timeStoreFlag,
+    toString t.chunkMetaCompressFlag, h]
+
+def metaConsts : String :=
+  "chunkMetaMin=" ++ toString chunkMetaMinLen ++ " segment=" ++ toString segmentLen ++ " minMaxTime="
+    ++ toString minMaxTimeLen ++ " columnMetaMin=" ++ toString columnMetaLenMin ++ " metaIndex="
+    ++ toString metaIndexLen ++ " detachedMetaIndex=" ++ toString detachedMetaIndexLen ++ " trailer="
+    ++ toString trailerSize ++ " preagg:int=48 float=48 bool=26 string=8 time=4 zero=" ++ toString zeroPreAgg.length
+
+def stepMeta (op rest : String) : Option String :=
+  match op with
+  | "metaconsts" => some metaConsts
+  | "scaled" =>
+    some (match parseInts rest with
+      | none => "bad-op"
+      | some vs => "ok " ++ hexOrDash (encodeScaled vs))
+  | "scaleddec" =>
+    some (match rest.splitOn " " with
+      | [n, hex] =>
+        match n.toNat?, hexBytes? hex with
+        | some n, some bs =>
+          match decodeScaled n bs with
+          | none => "err"
+          | some (vs, r) => "vals " ++ showInts vs ++ " " ++ toString r.length
+        | _, _ => "bad-op"
+      | _ => "bad-op")
+  | "cmeta" => some (stepCMeta (rest.splitOn " "))
+  | "cmetadec" => some (stepCMetaDec (rest.splitOn " "))
+  | "mindex" =>
+    some (match (do let d ← tNat; let id ← tNat; let mn ← tInt64; let mx ← tInt64; let off ← tInt64
+                    let cnt ← tNat; let sz ← tNat; pure (d, (⟨id, mn, mx, off, cnt, sz⟩ : MetaIndexM))
+                 : TP (Nat × MetaIndexM)).run (rest.splitOn " ") with
+      | some ((d, m), []) => if d > 1 then "bad-op" else "ok " ++ hexOrDash (marshalMetaIndex (d = 1) m)
+      | _ => "bad-op")
+  | "mindexdec" =>
+    some (match rest.splitOn " " with
+      | [d, hex] =>
+        match d.toNat?, hexBytes? hex with
+        | some d, some bs =>
+          if d > 1 then "bad-op"
+          else match unmarshalMetaIndex (d = 1) bs with
+            | none => "err"
+            | some (m, r) =>
+              "mi " ++ toString m.id ++ " " ++ toString m.minTime.toInt ++ " " ++ toString m.maxTime.toInt ++ " "
+                ++ toString m.offset.toInt ++ " " ++ toString m.count ++ " " ++ toString m.size ++ " "
+                ++ toString r.length
+        | _, _ => "bad-op"
+      | _ => "bad-op")
+  | "trailer" =>
+    some (match tTrailer.run (rest.splitOn " ") with
+      | some (t, []) => "ok " ++ hexOrDash (marshalTrailer t)
+      | _ => "bad-op")
+  | "trailerdec" =>
+    some (match hexBytes? rest with
+      | none => "bad-op"
+      | some bs =>
+        match unmarshalTrailer bs with
+        | none => "err"
+        | some (t, r) => "tr " ++ showTrailer t ++ " " ++ toString r.length)
+  | _ => none
+
 def step (line : String) : String :=
   let (op, rest) := splitOp line
   match op with
@@ -400,7 +583,7 @@ def step (line : String) : String :=
       | none => "err"
       | some [] => "bits -"
       | some vs => "bits " ++ String.ofList (vs.map fun b => if b then '1' else '0')
-  | _ => "bad-op"
+  | _ => (stepMeta op rest).getD "bad-op"
 
 /-- read up to `n` lines. -/
 partial def readChunk (h : IO.FS.Stream) (n : Nat) (acc : Array String) : IO (Array String × Bool) := do
